@@ -397,7 +397,9 @@ func runC14(c *core.Ctx, idx int) {
 		}
 		for _, rev := range []bool{false, true} {
 			rev := rev
-			add(c14Kind{name: "IteratorMatchingAnyOf/3", reverse: rev, set: sortedUnion(hi, odd), open: func() ast.SetCursor { return ist.Store.IteratorMatchingAnyOf(roles, []string{"hi", "odd", "no-such-role"})(tx, !rev) }})
+			add(c14Kind{name: "IteratorMatchingAnyOf/3", reverse: rev, set: sortedUnion(hi, odd), open: func() ast.SetCursor {
+				return ist.Store.IteratorMatchingAnyOf(roles, []string{"hi", "odd", "no-such-role"})(tx, !rev)
+			}})
 		}
 		add(c14Kind{name: "EmptyCursor", seekable: true, set: nil, open: func() ast.SetCursor { return ast.EmptyCursor }})
 		add(c14Kind{name: "EmptyCursor", set: nil, open: func() ast.SetCursor { return ast.NewEmptyCursor() }})
